@@ -5,12 +5,22 @@ open KafVerif KafVerif.ApiTable KafVerif.ProtoHeader
 
 def respFlex : Int → Int → Bool := flexOf (respFlexTab KafVerif.Gen.C11.kmsgTab)
 
+def known (k : Int) : Bool := KafVerif.Gen.C11.kmsgTab.any (fun r => r.1 == k)
+
 def stepLine (u : Unit) (ws : List String) : Unit × String :=
   match ws with
   | ["req", k, v, c, _] => match k.toInt?, v.toInt?, c.toInt? with
     | some k, some v, some c =>
       let h := replyHeader respFlex k v c
       (u, s!"reply hdr={h.length} corr={toInt32 (u32 (h.take 4))}")
+    | _, _, _ => (u, "bad-op")
+  | ["srh", k, v, hx] => match k.toInt?, v.toInt?, fromHex hx with
+    | some k, some v, some b =>
+      (u, match skipResponseHeader known respFlex k v b with
+        | .ok (some body) => s!"srh ok body={toHex body}"
+        | .ok none => "srh no"
+        | .err => "srh no"
+        | .panic => "srh panic")
     | _, _, _ => (u, "bad-op")
   | _ => (u, "bad-op")
 
